@@ -41,10 +41,15 @@ import (
 //   rclose <c>                  the remote closes c; the read error is held, the keepalive loop's next
 //                               send (real timer, 100 ms interval) fails and it tears the connection
 //                               down: `conn.Close(); handleDisconnect(conn, err)`  -> ok | notopen
-//   ktimeout <c>                (not generated) the remote stops answering keepalives. NOTE: on the pinned
-//                               code this never leads to a teardown: Connection.WriteFrame refreshes
-//                               lastActivity, so the keepalive loop's own sends keep the idle check
-//                               `since(lastActivity) > interval+timeout` false forever.
+//   ktimeout <c>                the remote stops answering keepalives; deadline interval+timeout+3 ticks for the
+//                               keepalive loop's idle teardown                      -> ok | no-teardown | notopen
+//                               (on the pinned code: no-teardown — Connection.WriteFrame refreshes lastActivity, so the
+//                               loop's own sends keep `since(lastActivity) > interval+timeout` false; which of the two the
+//                               code does is measured by `facts` and enters the model as MM.Gen.C32.keepaliveTimeoutFires)
+//   stall <c> / send <c> / unstall <c>   bytes in flight: reads on c deliver nothing while stalled; `send` writes a frame;
+//                               `unstall` lets the read loop have it. If the connection was closed meanwhile
+//                               (Disconnect/DisconnectAll) the read loop handles the frame, finds the connection
+//                               done and exits WITHOUT a teardown                  -> ok|notopen / sent|dropped|notstalled / resumed|silent|teardown|notstalled
 //   disconnect <p>              Manager.Disconnect(id)                             -> ok | notfound
 //   disconnectall               Manager.DisconnectAll()                            -> ok
 //   readerr <c>                 the held read error of c surfaces: the read loop runs its teardown -> ok | noloop
@@ -65,6 +70,8 @@ type c32Conn struct {
 	end        *pmtConn
 	registered bool
 	released   bool
+	stalled    bool
+	silent     bool // its read loop was seen to exit without a teardown
 	mu         sync.Mutex
 	responsive bool
 }
@@ -400,13 +407,55 @@ func c32Run(line string) string {
 			c.mu.Lock()
 			c.responsive = false
 			c.mu.Unlock()
-		} else {
-			c.remote.Close()
+			// deadline: the idle check runs at every keepalive tick; interval+timeout of silence plus two ticks
+			if !w.waitDone(c32KAInterval + c32KATimeout + 3*c32KAInterval) {
+				return "no-teardown"
+			}
+			return "ok"
 		}
+		c.remote.Close()
 		if !w.waitDone(5 * time.Second) {
 			return "no-teardown"
 		}
 		return "ok"
+	case "stall":
+		c := w.conn(f[1])
+		if c == nil || !c.registered || c.localClosed() || c.end.isClosed() {
+			return "notopen"
+		}
+		c.stalled = true
+		c.end.stallReads(true)
+		return "ok"
+	case "send":
+		c := w.conn(f[1])
+		if c == nil || !c.stalled {
+			return "notstalled"
+		}
+		w.nextSID++
+		if err := c.remote.WriteFrame(&protocol.Frame{Type: protocol.FrameStreamData, StreamID: w.nextSID, Payload: []byte{1}}); err != nil {
+			return "dropped"
+		}
+		return "sent"
+	case "unstall":
+		c := w.conn(f[1])
+		if c == nil || !c.stalled {
+			return "notstalled"
+		}
+		c.stalled = false
+		closed := c.localClosed()
+		w.drainDone()
+		c.end.stallReads(false)
+		if !closed {
+			c.settle()
+			return "resumed"
+		}
+		// The connection was closed while bytes were still in flight to the read loop: it now reads the
+		// frame. Deadline for a teardown to follow.
+		if w.waitDone(150 * time.Millisecond) {
+			return "teardown"
+		}
+		c.silent = true
+		return "silent"
 	case "disconnect":
 		if err := w.m.Disconnect(c32ID(num(1))); err != nil {
 			return "notfound"
@@ -417,7 +466,7 @@ func c32Run(line string) string {
 		return "ok"
 	case "readerr":
 		c := w.conn(f[1])
-		if c == nil || !c.registered || c.released || !c.end.isClosed() {
+		if c == nil || !c.registered || c.released || c.silent || !c.end.isClosed() {
 			return "noloop"
 		}
 		w.drainDone()
@@ -479,6 +528,15 @@ func c32Run(line string) string {
 func init() {
 	register("c32", &Engine{
 		Run: c32Run,
+		Facts: func(w *bufio.Writer) {
+			// Does the keepalive loop tear down a connection whose peer stopped answering? (measured, not assumed)
+			c32Reset()
+			fires := c32Run("connect in 1") == "registered c0" && c32Run("ktimeout 0") == "ok"
+			c32W.shutdown()
+			c32W = nil
+			fmt.Fprintf(w, "-- GENERATED by `harness c32 facts` from the real peer.Manager. Do not edit.\nnamespace MM.Gen.C32\n")
+			fmt.Fprintf(w, "/-- a connection whose remote end stops answering keepalives is torn down by the keepalive loop\n    within KeepaliveInterval+KeepaliveTimeout (+3 ticks) -/\ndef keepaliveTimeoutFires : Bool := %v\nend MM.Gen.C32\n", fires)
+		},
 		Gen: func(w *bufio.Writer, seed int64, tier string) {
 			r := newRng(seed)
 			cases := 40
@@ -496,11 +554,47 @@ func init() {
 			dir := func() string { return r.pickS("in", "out") }
 			for i := 0; i < cases; i++ {
 				p("reset")
-				kind := r.intn(7)
+				kind := r.intn(9)
 				if i < 2 {
 					kind = 6 // every run stresses simultaneous registration
+				} else if i < 4 {
+					kind = 5 + i // ... and has a frame-in-flight-at-close case (7) and a keepalive-timeout case (8)
 				}
 				switch kind {
+				case 7: // Disconnect / DisconnectAll while a frame is still in flight to the read loop: the loop exits
+					// without a teardown, the old routes stay until the NEXT teardown of that peer
+					p("connect %s 1", dir())
+					p("connect %s 2", dir())
+					p("learn 1 %d", r.pick(1, 2))
+					p("relay 1 2")
+					p("stall 0")
+					p("send 0")
+					if r.chance(50) {
+						p("send 0")
+					}
+					p(r.pickS("disconnect 1", "disconnectall"))
+					p("unstall 0")
+					p("readerr 0")
+					obs()
+					p("connect %s 1", dir())
+					p("learn 1 %d", r.pick(1, 3))
+					p("readerr 0")
+					obs()
+					p("readerr 1")
+					p("rclose 2")
+					p("rclose 3")
+					obs()
+				case 8: // the peer stops answering keepalives (deadline), then tries to come back
+					p("connect %s 1", dir())
+					p("learn 1 2")
+					p("ktimeout 0")
+					p("peer 1")
+					p("routes 1")
+					p("connect %s 1", dir())
+					p("frame 1")
+					p("readerr 0")
+					p("connect %s 1", dir())
+					obs()
 				case 6: // k simultaneous handshakes of one identity: exactly one registers, stays open, delivers
 					for q := 1; q <= 4; q++ {
 						p("race %d %d %s", q, r.pick(2, 4, 8), r.pickS("held", "held", "free"))
